@@ -159,7 +159,7 @@ def answer (j : Json) : Json :=
       ("loaderExc", Json.mkObj (Mode.all.map (fun m => (modeName m, Json.arr ((T.loaderExc m).map (fun c => Json.str (excName c))).toArray)))),
       ("errorExit", match T.error.exitStatus with | some n => (n : Json) | none => Json.null),
       ("errorRaises", match T.error.raisesWhenNoExit with | some c => Json.str (excName c) | none => Json.null),
-      ("subInherited", Json.arr (T.subInherited.map Json.str).toArray), ("plainExit", (T.plainExit : Json)), ("innerExitOnError", Json.bool T.innerExitOnError), ("helpExitOnError", Json.bool T.helpExitOnError),
+      ("subInherited", Json.arr (T.subInherited.map Json.str).toArray), ("printConfigCleanup", Json.str (lastName (reprStr T.printConfigCleanup))), ("plainExit", (T.plainExit : Json)), ("innerExitOnError", Json.bool T.innerExitOnError), ("helpExitOnError", Json.bool T.helpExitOnError),
       ("regions", (Region.all.length : Json)), ("states", (St.all.length : Json))]
   | q => Json.mkObj [("bad-query", q)]
 
